@@ -183,6 +183,8 @@ class Cloner:
             n.else_ = [self.stmt(t, scope) for t in s.else_] if s.else_ is not None else None
         elif k == "macrocall":
             n.args = [self.expr(a) for a in s.args]
+        elif k == "seguse":
+            n.block = self.block(s.block, scope) if s.block is not None else None     # (a segment block is not a scope)
         elif k in ("text", "align", "setpc", "testraw"):
             pass
         else:
